@@ -98,7 +98,9 @@ def run_shards(prop, tier, seed, nshards, budget, max_cases, only=None, hashseed
                 nshards = 0
         for i in range(nshards):
             out = os.path.join(tmp, f"shard{i}.json")
-            hs = hashseeds[i] if hashseeds else (0 if tier == "quick" else i)
+            # every shard runs under a hash seed of its own in BOTH tiers (quick: 0..3): the order in which sets and
+            # dicts of strings iterate is part of the explored space, a result may not depend on it
+            hs = hashseeds[i] if hashseeds else i
             procs.append((i, out, spawn(prop, tier, seed, i, nshards, budget, max_cases, out, hs, only, echo)))
         deadline = time.time() + 7 * budget + (900 if piggyback else 120)
         for i, out, p in procs:
